@@ -16,3 +16,23 @@ package keystore
 //@ func checkBranchKeys
 //@   assert-at call Child#1 external-branch-is-normal-child-0: arg0 == acctKey && arg1 == 0
 //@   assert-at call Child#2 internal-branch-is-normal-child-1: arg0 == acctKey && arg1 == 1
+
+// ---- mnemonic helpers (C18): exact contracts; the 11-bit packing itself is only checked by a bounded stand-in ----
+
+//@ func validateEntropyBitSize
+//@   modifies nothing
+//@   ensures five-sizes: (err == nil) == (bitSize == 128 || bitSize == 160 || bitSize == 192 || bitSize == 224 || bitSize == 256)
+
+//@ func padByteSlice
+//@   requires length <= 65536
+//@   modifies nothing
+//@   ensures left-padded-length: len(result) == max(length, len(slice))
+//@   ensures returned-as-is-when-long-enough: length <= len(slice) ==> result == slice
+//@   ensures zeros-then-the-bytes: length > len(slice) ==> fresh(result) && (forall j int :: 0 <= j && j < length - len(slice) ==> result[j] == 0) && (forall j int :: 0 <= j && j < len(slice) ==> result[length - len(slice) + j] == slice[j])
+
+//@ func compareByteSlices
+//@   modifies nothing
+//@   ensures true-only-for-equal-contents: result ==> len(a) == len(b) && (forall j int :: 0 <= j && j < len(a) ==> a[j] == b[j])
+//@   assert-at return#1 false-for-different-lengths: len(a) != len(b)
+//@   assert-at return#2 false-at-a-differing-byte: 0 <= #rangeindex + 1 && #rangeindex + 1 < len(a) && a[#rangeindex + 1] != b[#rangeindex + 1]
+//@   loop * invariant prefix-equal: -1 <= #rangeindex && #rangeindex < len(a) && len(a) == len(b) && (forall j int :: 0 <= j && j <= #rangeindex ==> a[j] == b[j])
